@@ -9,10 +9,13 @@ import (
 	"database/sql/driver"
 	"fmt"
 	"github.com/yandex/mysync/internal/verif/emu"
+	"net"
+	"os"
 	"runtime"
 	"runtime/debug"
 	"sort"
 	"strings"
+	"syscall"
 	"testing/synctest"
 	"time"
 
@@ -44,6 +47,8 @@ type World struct {
 	// under freeMu; nothing is parked, no scheduler decides, no deviation is injected.
 	Free   bool
 	freeMu emu.Mutex
+
+	EnvHook func(arg int) // see DevEnv
 
 	Servers map[string]*Server
 	ZK      *ZKServer
@@ -165,11 +170,12 @@ const (
 	DevTargetDownAfter
 	DevPreempt // run the Arg-th other pending call (in arrival order) instead
 	DevZKLoss  // the calling process loses the coordination service just before this call
+	DevEnv     // an environment action of the driver (World.EnvHook(Arg)) happens just before this call
 )
 
 var devNames = map[DevKind]string{DevNone: "none", DevErr: "err", DevLost: "lost-reply", DevHang: "hang",
 	DevCrashBefore: "crash-before", DevCrashAfter: "crash-after", DevTargetDownBefore: "target-down-before",
-	DevTargetDownAfter: "target-down-after", DevPreempt: "preempt", DevZKLoss: "zk-loss"}
+	DevTargetDownAfter: "target-down-after", DevPreempt: "preempt", DevZKLoss: "zk-loss", DevEnv: "env-action"}
 
 func (k DevKind) String() string { return devNames[k] }
 
@@ -577,6 +583,12 @@ func (w *World) execute(c *Call, pt *Point, dev Deviation) {
 	case DevZKLoss:
 		w.SetCut(w.hostOf(c.Proc), "zk", true)
 		w.ZK.SyncLinks()
+	case DevEnv:
+		// something else in the world moves between two calls of the process (another initiator
+		// writes the tree, an operator edits a server); the call itself then proceeds normally
+		if w.EnvHook != nil {
+			w.EnvHook(dev.Arg)
+		}
 	}
 	switch c.Kind {
 	case "sql":
@@ -626,7 +638,7 @@ func (w *World) executeSQL(c *Call, pt *Point, dev Deviation) {
 	}
 	if !s.Up {
 		pt.Fails = true
-		err := fmt.Errorf("dial tcp %s:3306: connect: connection refused", c.Target)
+		err := refusedErr(c.Target)
 		w.note(pt, c, false, err)
 		c.reply <- Reply{Err: err, Delay: FailLatency}
 		return
@@ -676,7 +688,7 @@ func (w *World) executeSQL(c *Call, pt *Point, dev Deviation) {
 func (w *World) park(c *Call) {
 	if c.Ctx == nil || c.Ctx.Done() == nil {
 		// no deadline: treat as refused after latency (never the case for mysync's SQL calls)
-		c.reply <- Reply{Err: fmt.Errorf("i/o timeout"), Delay: FailLatency}
+		c.reply <- Reply{Err: &net.OpError{Op: "read", Net: "tcp", Err: os.ErrDeadlineExceeded}, Delay: FailLatency}
 		return
 	}
 	w.mu.Lock()
@@ -726,7 +738,18 @@ func sqlErrFlavour(arg int) error {
 	case 2:
 		return mysqlErr(1205, "Lock wait timeout exceeded; try restarting transaction")
 	}
-	return fmt.Errorf("injected: read tcp: connection reset by peer")
+	return &net.OpError{Op: "read", Net: "tcp", Err: &os.SyscallError{Syscall: "read", Err: syscall.ECONNRESET}}
+}
+
+type hostAddr string
+
+func (a hostAddr) Network() string { return "tcp" }
+func (a hostAddr) String() string  { return string(a) }
+
+// refusedErr is what go-sql-driver hands up when the host is there and nothing listens on the port:
+// the dialer's *net.OpError (a net.Error that is NOT a timeout) wrapping ECONNREFUSED.
+func refusedErr(host string) error {
+	return &net.OpError{Op: "dial", Net: "tcp", Addr: hostAddr(host + ":3306"), Err: &os.SyscallError{Syscall: "connect", Err: syscall.ECONNREFUSED}}
 }
 
 // ---------------------------------------------------------------------------------------------
